@@ -221,7 +221,7 @@ func ledDiff(a, b *snap) []string {
 }
 
 // ids maps recorded header hashes to abstract identities: c = canonical at that height, o = the offered block, x = other.
-func (n *node) ids(s *snap, offered util.Uint256) []string {
+func (n *node) ids(s *snap, offered util.Uint256, follower ...util.Uint256) []string {
 	r := []string{}
 	for i, h := range s.hdrs {
 		idx := int(s.blkH) + 1 + i
@@ -230,6 +230,8 @@ func (n *node) ids(s *snap, offered util.Uint256) []string {
 			r = append(r, "c")
 		case h == offered:
 			r = append(r, "o")
+		case len(follower) > 0 && follower[0] != (util.Uint256{}) && h == follower[0]:
+			r = append(r, "n") // the harness-made follower of a batch offer
 		default:
 			r = append(r, "x")
 		}
